@@ -246,22 +246,63 @@ func interpShape(c *vrt.Ctx, sh *evalShard, r *vrt.Rand, k interpKind, knotKind 
 		}
 	}
 	sh.evalN("interp."+k.name+".Predict|outside", 8)
-	// history independence: a reused object equals a fresh one.
-	g := k.mk()
-	m2 := 2 + r.Intn(12)
-	if m2 < k.minN+1 {
-		m2 = k.minN + 1
+	// history independence: an object that was fitted before to fewer, as
+	// many or more knots, or whose previous Fit panicked on bad input, must
+	// predict (values and derivatives, at, between and outside the knots)
+	// exactly like a fresh one.
+	refitPts := append([]float64(nil), xs...)
+	for i := 0; i+1 < n; i++ {
+		refitPts = append(refitPts, xs[i]+(xs[i+1]-xs[i])*r.Float64())
 	}
-	x2 := makeKnots(r, "random", m2)
-	if p := vrt.Try(func() { g.Fit(x2, makeData(r, "random", x2)); g.Fit(xs, ys) }); p == nil {
-		for q := 0; q < 6; q++ {
-			x := r.Uniform(xs[0]-0.1*span, xs[n-1]+0.1*span)
-			if a, b := f.Predict(x), g.Predict(x); !sameBits(a, b) {
-				c.Violation(sig("refit-depends-on-history"), fmt.Sprintf("Predict(%.17g): fresh %.17g, refitted object %.17g", x, a, b), replay)
+	refitPts = append(refitPts, xs[0]-0.3*span, xs[n-1]+0.3*span)
+	fd0, fHasD := f.(dfitter)
+	for _, hist := range []string{"fewer-knots", "equal-knots", "more-knots", "after-panic"} {
+		m2 := n
+		switch hist {
+		case "fewer-knots":
+			m2 = n - 1 - r.Intn(3)
+		case "more-knots":
+			m2 = n + 1 + r.Intn(6)
+		}
+		if m2 < k.minN {
+			continue
+		}
+		g := k.mk()
+		x2 := makeKnots(r, knotKinds[r.Intn(len(knotKinds))], m2)
+		pre := vrt.TryFast(func() { g.Fit(x2, makeData(r, "random", x2)) })
+		if k.name == "NotAKnotCubic" && m2 == 3 {
+			pre = nil // Fit returns an error there (known finding); the object is still reused below
+		}
+		if pre != nil {
+			continue
+		}
+		if hist == "after-panic" {
+			if p := vrt.TryFast(func() { g.Fit([]float64{1, 3, 2, 4}, []float64{1, 2, 3, 4}) }); p == nil {
+				continue // reported by the domain check
+			}
+		}
+		if p := vrt.TryFast(func() { g.Fit(xs, ys) }); p != nil {
+			c.Violation(sig("refit-panics"), fmt.Sprintf("Fit on an object previously fitted (%s): %s", hist, p.Msg), replay)
+			continue
+		}
+		sh.evalN("interp."+k.name+".Fit|refit|"+hist, 2)
+		gd, _ := g.(dfitter)
+		for _, x := range refitPts {
+			var a, b, da, db float64
+			if p := vrt.TryFast(func() {
+				a, b = f.Predict(x), g.Predict(x)
+				if fHasD {
+					da, db = fd0.PredictDerivative(x), gd.PredictDerivative(x)
+				}
+			}); p != nil {
+				c.Violation(sig("refit-depends-on-history"), fmt.Sprintf("Predict(%.17g) panics on an object previously fitted (%s): %s", x, hist, p.Msg), replay)
+				break
+			}
+			if !sameBits(a, b) || !sameBits(da, db) {
+				c.Violation(sig("refit-depends-on-history"), fmt.Sprintf("previous fit: %s; Predict(%.17g): fresh %.17g, refitted %.17g; PredictDerivative: fresh %.17g, refitted %.17g", hist, x, a, b, da, db), replay)
 				break
 			}
 		}
-		sh.evalN("interp."+k.name+".Fit|refit", 2)
 	}
 
 	if k.smooth == -1 {
@@ -601,6 +642,46 @@ func interpHermite(c *vrt.Ctx) {
 			if !sameBits(pc.PredictDerivative(xs[j]), ds[j]) {
 				c.Violation(sig("knot-derivative-not-reproduced"), fmt.Sprintf("PredictDerivative(xs[%d]) = %.17g, dydxs = %.17g", j, pc.PredictDerivative(xs[j]), ds[j]), replay)
 				return
+			}
+		}
+		for _, hist := range []string{"fewer-knots", "equal-knots", "more-knots", "after-panic"} {
+			m2 := n
+			switch hist {
+			case "fewer-knots":
+				m2 = n - 1 - r.Intn(3)
+			case "more-knots":
+				m2 = n + 1 + r.Intn(6)
+			}
+			if m2 < 2 {
+				continue
+			}
+			var g interp.PiecewiseCubic
+			x2 := makeKnots(r, "random", m2)
+			if p := vrt.TryFast(func() { g.FitWithDerivatives(x2, makeData(r, "random", x2), makeData(r, "random", x2)) }); p != nil {
+				continue
+			}
+			if hist == "after-panic" {
+				vrt.TryFast(func() { g.FitWithDerivatives([]float64{1, 3, 2}, []float64{1, 2, 3}, []float64{0, 0, 0}) })
+			}
+			if p := vrt.TryFast(func() { g.FitWithDerivatives(xs, ys, ds) }); p != nil {
+				c.Violation(sig("refit-panics"), fmt.Sprintf("FitWithDerivatives on an object previously fitted (%s): %s", hist, p.Msg), replay)
+				continue
+			}
+			c.Eval("interp.PiecewiseCubic.FitWithDerivatives|refit|"+hist, true)
+			for q := 0; q <= 2*n+1; q++ {
+				x := xs[0] - 1
+				switch {
+				case q < n:
+					x = xs[q]
+				case q < 2*n-1:
+					x = xs[q-n] + (xs[q-n+1]-xs[q-n])*r.Float64()
+				case q == 2*n:
+					x = xs[n-1] + 1
+				}
+				if !sameBits(pc.Predict(x), g.Predict(x)) || !sameBits(pc.PredictDerivative(x), g.PredictDerivative(x)) {
+					c.Violation(sig("refit-depends-on-history"), fmt.Sprintf("previous fit: %s; Predict(%.17g): fresh %.17g, refitted %.17g; PredictDerivative: fresh %.17g, refitted %.17g", hist, x, pc.Predict(x), g.Predict(x), pc.PredictDerivative(x), g.PredictDerivative(x)), replay)
+					break
+				}
 			}
 		}
 		for j := 0; j+1 < n; j++ {
